@@ -22,7 +22,7 @@ def cuts(rng, T):
 
 def gen_scenario(rng, i):
     if rng.random() < 0.4:
-        sc = c05.gen_scenario(rng, i, rng.choice(["down", "up", "sub-up", "sub-down", "resfb"]))
+        sc = c05.gen_scenario(rng, i, rng.choice(["down", "up", "sub-up", "sub-down", "resfb", "esn-fb"]))
         sc["ops"] = []
         d = sc["dim"]
         sc["entries"], sc["din"] = None, d
